@@ -172,6 +172,51 @@ pub fn sparse_position(rng: &mut Rng) -> Pos {
     }
 }
 
+/// "for all positions": also those with far more moves than any game position has - the side
+/// to move has a king and eight to eleven queens and rooks (more than 128 pseudo-legal moves
+/// where it can be had; the record for a legal position is 218).
+pub fn high_mobility_position(rng: &mut Rng) -> Pos {
+    let mut best: Option<(usize, Pos)> = None;
+    for _ in 0..400 {
+        let mut sqs = [EMPTY; 64];
+        let white = rng.chance(1, 2);
+        let (me, other) = if white { (0, BLACK) } else { (BLACK, 0) };
+        let mut free: Vec<usize> = (0..64).collect();
+        rng.shuffle(&mut free);
+        let mut take = || free.pop().unwrap();
+        sqs[take()] = K | me;
+        sqs[take()] = K | other;
+        for _ in 0..rng.range(8, 12) {
+            sqs[take()] = if rng.chance(4, 5) { Q | me } else { R | me };
+        }
+        for _ in 0..rng.below(3) {
+            let s = take();
+            if (8..56).contains(&s) {
+                sqs[s] = P | other;
+            }
+        }
+        let pos = Pos {
+            sq: sqs,
+            white,
+            castle: [false; 4],
+            ep: None,
+            hmc: rng.below(30) as u32,
+            fmn: rng.range(1, 120) as u32,
+        };
+        if !pos.is_sane() || pos.legal_moves().is_empty() {
+            continue;
+        }
+        let n = pos.pseudo_moves().len();
+        if n > 128 {
+            return pos;
+        }
+        if best.as_ref().is_none_or(|(b, _)| n > *b) {
+            best = Some((n, pos));
+        }
+    }
+    best.map_or_else(|| sparse_position(rng), |(_, p)| p)
+}
+
 #[derive(Clone, Debug)]
 pub struct PosSpec {
     /// The `position ...` line that sets it up.
@@ -199,7 +244,14 @@ pub fn random_posspec(rng: &mut Rng) -> PosSpec {
             0..=2 => (Pos::start(), true),
             3..=5 => (Pos::from_fen(rng.pick(CURATED)).unwrap(), false),
             6..=7 => (Pos::from_fen(rng.pick(BENCH_FENS)).unwrap(), false),
-            _ => (sparse_position(rng), false),
+            8 => (sparse_position(rng), false),
+            _ => {
+                if rng.chance(1, 6) {
+                    (high_mobility_position(rng), false)
+                } else {
+                    (sparse_position(rng), false)
+                }
+            }
         };
         let plies = if from_start {
             rng.below(50) as usize
@@ -229,7 +281,8 @@ pub fn random_posspec(rng: &mut Rng) -> PosSpec {
                 (format!("{head} moves {}", moves_str(&moves)), positions)
             }
         };
-        let dense = game.last().unwrap().piece_count() > 12;
+        let last = game.last().unwrap();
+        let dense = last.piece_count() > 12 || last.pseudo_moves().len() > 100;
         return PosSpec { cmd, game, dense };
     }
 }
